@@ -256,6 +256,7 @@ func Run(s *kernel.Sim) *World {
 		// a fault on one of the last uploads before the quiet phase
 		w.Bucket.Script = append(w.Bucket.Script, make([]int, 40)...)
 	}
+	diskFaultRun := t.Bool(1, 3)
 	nWrite := 0
 	writersBusy := 0
 	lastWriteT := time.Duration(-1)
@@ -294,7 +295,17 @@ func Run(s *kernel.Sim) *World {
 						return
 					}
 				}
+				// the disk is full while this writer runs its next stretch: a
+				// save in it fails and leaves the file as it was
+				full := diskFaultRun && tk.Kind == "lock" && strings.HasPrefix(tk.Task.Name, "writer") && t.Bool(1, 4)
+				if full {
+					dbworld.SetFileSizeLimit(48)
+					s.Fault("disk-full-write")
+				}
 				s.Release(tk)
+				if full {
+					dbworld.SetFileSizeLimit(0)
+				}
 			}})
 		}
 		wWrite := 2
